@@ -20,7 +20,9 @@ SCENARIOS = [
     ("S7-nested-child-memoized-inside-parent", [], ["parent", 1], [["parent", 1], ["parent", 1], ["f", 1], ["g", 1], ["f", 1]]),
 ]
 OP_VARIANTS = ["crash", "enospc"]
-WRITE_VARIANTS = ["crash", "crash_half", "enospc", "efbig_half"]
+WRITE_VARIANTS = ["crash", "crash_half", "crash_q3", "crash_most", "enospc", "efbig_half", "efbig_most"]
+# buffered files: the data reaches the file system when the file is flushed / closed
+CLOSE_VARIANTS = ["crash", "crash_half", "crash_most", "enospc", "efbig_half"]
 
 
 def run(prop, tier):
@@ -36,7 +38,9 @@ def run(prop, tier):
         probes = []
         for name, pre, fc, post in SCENARIOS:
             for b in budgets:
-                probes.append({"cfg": {"budget": b, "scenario": name}, "want_ops": True, "calls": pre + [fc] + post, "faults": []})
+                for buffered in (False, True):
+                    probes.append({"cfg": {"budget": b, "scenario": name, "buffered": buffered}, "want_ops": True,
+                                   "calls": pre + [fc] + post, "faults": []})
         base = common.run_jobs("fault_worker.py", probes, wd)
         jobs = []
         oplists = {}
@@ -45,9 +49,10 @@ def run(prop, tier):
             pre = next(s[1] for s in SCENARIOS if s[0] == name)
             ci = len(pre)
             ops = pr["oplists"][ci]
-            oplists[name] = ops
+            oplists[name + ("/buffered" if pj["cfg"]["buffered"] else "")] = ops
             for k, desc in enumerate(ops, start=1):
-                variants = WRITE_VARIANTS if desc.startswith("write ") else OP_VARIANTS
+                variants = WRITE_VARIANTS if desc.startswith("write ") else \
+                    CLOSE_VARIANTS if desc.startswith(("close_w ", "flush_w ")) else OP_VARIANTS
                 for v in variants:
                     jobs.append({"cfg": pj["cfg"], "calls": pj["calls"], "faults": [{"call": ci, "op": k, "variant": v}]})
         single = common.run_jobs("fault_worker.py", jobs, wd, timeout=1800)
@@ -69,15 +74,18 @@ def run(prop, tier):
         common.tick("double faults: %d runs" % len(double))
 
         payload = [{"cfg": {"budget": t["cfg"].get("budget", 0)}, "ev": t["ev"]} for t in traces]
+        rep.cov["fault_free_operation_list_S1_buffered"] = oplists.get("S1-first-memoize/buffered", [])
         rej, vr = tlc.validate_traces("TraceCrashSafe", payload, wd, timeout=1500)
         rep.add_tlc(vr, "trace validation TraceCrashSafe")
         rep.cov["traces_validated_against_impl"] = len(traces)
         rep.cov["evaluations"] = len(traces)
-        rep.cov["distinct_nontrivial"] = len({json.dumps(t["job"]["faults"]) + t["cfg"].get("scenario", "") + str(t["cfg"].get("budget")) for t in traces})
+        rep.cov["distinct_nontrivial"] = len({json.dumps(t["job"]["faults"]) + t["cfg"].get("scenario", "") + str(t["cfg"].get("budget")) + str(t["cfg"].get("buffered")) for t in traces})
         rep.cov["exhaustive"] = True
         rep.cov["rule"] = ("per scenario and cache setting: every mutating filesystem operation of the memoizing call "
                            "(mkdir, open-for-write, write, remove...) x every fault variant (crash before, crash mid-write "
-                           "empty/half, ENOSPC on open/mkdir/write, EFBIG after half); then restart + follow-up calls; "
+                           "empty / half / three quarters / all but the last byte, ENOSPC on open/mkdir/write, EFBIG after "
+                           "half / all but the last byte), once with write-through files (a fault hits write()) and once with "
+                           "buffered files (the data reaches the file at flush/close, a fault hits close()); then restart + follow-up calls; "
                            "double faults add a second fault at every operation of the first follow-up call")
         rep.cov["operations_per_scenario"] = {k: len(v) for k, v in oplists.items()}
         rep.cov["fault_free_operation_list_S1"] = oplists.get("S1-first-memoize", [])
@@ -89,6 +97,7 @@ def run(prop, tier):
             e = t["ev"][rj["prefix"]] if rj["prefix"] < len(t["ev"]) else {}
             fl = t["job"]["faults"]
             facts = {"property": prop, "scenario": t["cfg"].get("scenario"), "budget": t["cfg"].get("budget", 0),
+                     "buffered": bool(t["cfg"].get("buffered")),
                      "why": sorted(rj["why"]), "event": e.get("k", e.get("what")), "exc": e.get("exc", ""),
                      "fault_variants": [f["variant"] for f in fl], "nfaults": len(fl),
                      "fault_ops": [f["op"] for f in fl], "msg": e.get("msg", "")[:100]}
